@@ -313,4 +313,4 @@ def _obligations():
 
 
 def obligations():
-    return _obligations() + [labels_obligation("C06"), selectors_obligation("C06"), mutations_obligation("C06"), effects_obligation("C06"), plumbing_obligation("C06"), overrides_obligation("C06"), options_obligation("C06"), handlers_obligation("C06")]
+    return _obligations() + [labels_obligation("C06"), selectors_obligation("C06"), mutations_obligation("C06"), loopstate_obligation("C06"), effects_obligation("C06"), plumbing_obligation("C06"), overrides_obligation("C06"), options_obligation("C06"), handlers_obligation("C06")]
